@@ -5,6 +5,7 @@ package c01
 
 import (
 	"fmt"
+	"sync"
 	"testing"
 
 	"github.com/crillab/gophersat/solver"
@@ -372,4 +373,118 @@ func TestReplay(t *testing.T) { vf.ReplayEnv(t) }
 
 // native fuzz targets (thorough tier): the fuzzer mutates the byte stream that rapid decodes into generator choices
 func FuzzRandomSmall(f *testing.F) { vf.FuzzNamed(f, "C01", "random-small") }
-func FuzzHardSmall(f *testing.F) { vf.FuzzNamed(f, "C01", "hard-small-xor-php") }
+func FuzzHardSmall(f *testing.F)   { vf.FuzzNamed(f, "C01", "hard-small-xor-php") }
+
+// ---- solvers at work side by side --------------------------------------------------------------------
+
+// ParCase: G goroutines each solve Per formulas of their own (3-SAT with a planted model, N variables, built from
+// Seed by a fixed generator, so that the case stays small). The property quantifies over formulas, not over what
+// else the process is doing: every one of these answers must be Sat with a valid model.
+type ParCase struct {
+	G    int    `json:"g"`
+	Per  int    `json:"per"`
+	N    int    `json:"n"`
+	Seed uint64 `json:"seed"`
+}
+
+func plantedFormula(n int, seed uint64) ([][]int, []bool) {
+	x := seed*0x9e3779b97f4a7c15 + 0x2545f4914f6cdd1d
+	next := func() uint64 {
+		x ^= x << 13
+		x ^= x >> 7
+		x ^= x << 17
+		return x
+	}
+	planted := make([]bool, n+1)
+	for v := 1; v <= n; v++ {
+		planted[v] = next()&1 == 1
+	}
+	var cls [][]int
+	for len(cls) < n*42/10 {
+		var cl []int
+		ok := false
+		for len(cl) < 3 {
+			v := int(next()%uint64(n)) + 1
+			dup := false
+			for _, l := range cl {
+				if l == v || l == -v {
+					dup = true
+				}
+			}
+			if dup {
+				continue
+			}
+			if next()&1 == 1 {
+				v = -v
+			}
+			if (v > 0) == planted[abs(v)] {
+				ok = true
+			}
+			cl = append(cl, v)
+		}
+		if ok {
+			cls = append(cls, cl)
+		}
+	}
+	return cls, planted
+}
+
+func abs(a int) int {
+	if a < 0 {
+		return -a
+	}
+	return a
+}
+
+func checkPar(c ParCase, o *vf.Obs) error {
+	gs.Arm(0, 0)
+	errs := make([]error, c.G)
+	conflicts := make([]int, c.G)
+	var wg sync.WaitGroup
+	for g := 0; g < c.G; g++ {
+		wg.Add(1)
+		go func(g int) {
+			defer wg.Done()
+			errs[g] = vf.Safely(func() error {
+				for j := 0; j < c.Per; j++ {
+					cls, _ := plantedFormula(c.N, c.Seed+uint64(g*1000+j))
+					s := solver.New(solver.ParseSliceNb(oracle.CloneCNF(cls), c.N))
+					st := s.Solve()
+					conflicts[g] += s.Stats.NbConflicts
+					if st != solver.Sat {
+						return fmt.Errorf("goroutine %d, formula %d (%d variables, built from seed %d): Solve = %v, the formula has a model by construction", g, j, c.N, c.Seed+uint64(g*1000+j), st)
+					}
+					m := s.Model()
+					if len(m) != c.N {
+						return fmt.Errorf("goroutine %d, formula %d: the model has %d values, the formula %d variables", g, j, len(m), c.N)
+					}
+					if i := oracle.ModelSatisfies(cls, m); i >= 0 {
+						return fmt.Errorf("goroutine %d, formula %d (seed %d): the model violates clause %v", g, j, c.Seed+uint64(g*1000+j), cls[i])
+					}
+				}
+				return nil
+			})
+		}(g)
+	}
+	wg.Wait()
+	total := 0
+	for g := range errs {
+		if errs[g] != nil {
+			return fmt.Errorf("%d solvers at work side by side: %v", c.G, errs[g])
+		}
+		total += conflicts[g]
+	}
+	if total >= 100*c.G {
+		o.Nontrivial()
+	}
+	return nil
+}
+
+func genPar(t *rapid.T) ParCase {
+	return ParCase{G: rapid.SampledFrom([]int{2, 4, 8}).Draw(t, "g"), Per: rapid.IntRange(30, 120).Draw(t, "per"), N: gen.Uniform(t, 60, 100, "n"), Seed: rapid.Uint64().Draw(t, "seed")}
+}
+
+func init() {
+	vf.Register(vf.Sub[ParCase]{Name: "side-by-side", Quick: 10, Thorough: 80, Gen: genPar, Check: checkPar, Floor: 0.5,
+		Rule: "2..8 goroutines each build and solve 30..120 formulas of their own (3-SAT at ratio 4.2 over 60..100 variables with a planted model, derived from a drawn seed by a fixed generator): every answer must be Sat with a model of the right length that satisfies every clause, and nothing may panic; non-trivial = >= 100 conflicts per goroutine"})
+}
